@@ -66,6 +66,12 @@ theorem reconcile_consistent (ids : List Int) (pl : List PhaseInfo) (ni : Bool)
     (hs : (pl.map (·.id)).Pairwise (· < ·)) (hpos : ∀ p ∈ pl, -1 < p.id)
     (hm : ∀ a, a ∈ ids ↔ (a = -1 ∧ ni = true) ∨ a ∈ pl.map (·.id)) :
     reconcile ids pl = some (if ni then notIndexedPhase :: pl else pl) := by
+  have hfil : pl.filter (fun x => x.id != -1) = pl := by
+    rw [List.filter_eq_self]
+    intro p hp
+    have := hpos p hp
+    have hne : p.id ≠ -1 := by omega
+    simpa using hne
   cases ni with
   | false =>
     have hu : uniqSorted ids = pl.map (·.id) := uniqSorted_eq hs (fun a => by simpa using hm a)
@@ -77,7 +83,7 @@ theorem reconcile_consistent (ids : List Int) (pl : List PhaseInfo) (ni : Bool)
         simp only [List.map_cons, List.head?_cons]
         have hne : p.id ≠ -1 := by omega
         simp [hne]
-    simp only [reconcile, hu, hh, Bool.false_eq_true, if_false, List.length_map, lt_irrefl, Nat.sub_self,
+    simp only [reconcile, hfil, hu, hh, Bool.false_eq_true, if_false, List.length_map, lt_irrefl, Nat.sub_self,
       dropSuperfluous, List.reverse_reverse, rekey_self]
   | true =>
     have ht : ((-1 : Int) :: pl.map (·.id)).Pairwise (· < ·) := by
@@ -87,7 +93,7 @@ theorem reconcile_consistent (ids : List Int) (pl : List PhaseInfo) (ni : Bool)
       exact hpos p hp
     have hu : uniqSorted ids = (-1 : Int) :: pl.map (·.id) :=
       uniqSorted_eq ht (fun a => by simpa using hm a)
-    simp [reconcile, hu, dropSuperfluous, rekey_self]
+    simp [reconcile, hfil, hu, dropSuperfluous, rekey_self]
 
 /-! ### sorting phases by id -/
 
